@@ -35,7 +35,7 @@ func CheckC13(p *Pkg, e *Env, r *res.Result) {
 		f := res.Failure{Property: "C13", Kind: "served:" + kind, Clause: "served",
 			Detail: fmt.Sprintf("spec route %q (base %q, spec name %q, templates %v), request GET %s: %s", specURL, p.BasePath, p.Cfg.ServedSpecName(), templatesOf(p), path, msg),
 			Replay: p.SpecReplay(map[string]any{"request.txt": "GET " + path, "content.txt": string(want)})}
-		return FailOrKnown(e, r, f)
+		return FailOrKnown(p, e, r, f)
 	}
 	get := func(in *Inst, path string) (*Recorder, string) {
 		req := httptest.NewRequest("GET", "http://h.example/", nil)
